@@ -44,6 +44,46 @@ struct Obj {
     }
 };
 
+/* ---- use before main(): a file-scope object of the sketch keys every class and encrypts one block in its constructor.  This
+   translation unit is linked before the library's, so its initialisers run first: a class that relies on tables filled by its own
+   start-up code answers wrongly here.  main() compares with the C library. ---- */
+static const uint8_t EARLY_KEY[48] = {0x60,0x11,0x92,0x23,0xb4,0x35,0xc6,0x47,0xd8,0x59,0xea,0x6b,0xfc,0x7d,0x0e,0x8f,1,2,3,4,5,6,7,8,9,10,11,12,13,14,15,16,
+                                      0xa1,0xa2,0xa3,0xa4,0xa5,0xa6,0xa7,0xa8,0xa9,0xaa,0xab,0xac,0xad,0xae,0xaf,0xb0};
+static const uint8_t EARLY_TW[16] = {9,8,7,6,5,4,3,2,1,0,0x11,0x22,0x33,0x44,0x55,0x66}, EARLY_IN[16] = {0x3a,0x0c,0x47,0x76,0x7a,0x26,0xa6,0x8d,0xd3,0x82,0xa6,0x95,0xe7,0x02,0x2e,0x25};
+static struct EarlyProbe {
+    uint8_t out[11][16]; bool ok[11];
+    EarlyProbe() {
+        Obj *o = new Obj();
+        for (int i = 0; i < 11; ++i) {
+            BlockCipher *bc = o->get(i);
+            ok[i] = bc->setKey(EARLY_KEY, CLS[i].klen);
+            if (CLS[i].tweaked) ok[i] = ok[i] && o->setTweak(i, EARLY_TW, CLS[i].mantis ? 8 : CLS[i].bb);
+            memset(out[i], 0, 16); bc->encryptBlock(out[i], EARLY_IN);
+        }
+        delete o;
+    }
+} g_early;
+
+/* ---- copies: a keyed object is copied (copy construction and assignment), the copy is used and destroyed, and the original is used
+   again.  Only compiled for classes that are copyable; a copy must never disturb the object it was made from. ---- */
+#include <type_traits>
+template <typename T> static typename std::enable_if<std::is_copy_constructible<T>::value && std::is_copy_assignable<T>::value, int>::type
+copy_probe(const uint8_t *key, size_t klen, const uint8_t *in, unsigned bb, const uint8_t *want)
+{
+    T orig; uint8_t o1[16], o2[16]; int bad = 0;
+    if (!orig.setKey(key, klen)) return 4;
+    {
+        T c1(orig); T c2; c2 = orig;
+        c1.encryptBlock(o1, in); c2.encryptBlock(o2, in);
+        if (memcmp(o1, want, bb) || memcmp(o2, want, bb)) bad |= 1;           /* the copies compute what the original computes */
+    }                                                                          /* the copies die here */
+    orig.encryptBlock(o1, in);
+    if (memcmp(o1, want, bb)) bad |= 2;                                        /* ... and the original is unharmed */
+    return bad;
+}
+template <typename T> static typename std::enable_if<!(std::is_copy_constructible<T>::value && std::is_copy_assignable<T>::value), int>::type
+copy_probe(const uint8_t *, size_t, const uint8_t *, unsigned, const uint8_t *) { return -1; }
+
 /* expected block result from the C library, schedule built from scratch from (key, tweak, mode) */
 static void c_expected(const ClassInfo &ci, const uint8_t *key, const uint8_t *tweak, int dec_or_mode, const uint8_t *in, uint8_t *out)
 {
@@ -248,6 +288,29 @@ int main(int argc, char **argv)
     vh_init(argc, argv);
     if (ref_selftest()) { printf("{\"type\":\"harness_error\",\"detail\":\"ref selftest\"}\n"); return 2; }
     vh_install_fault_handler();
+    if (vh_shard == 0) {
+        int i; uint8_t e1[16]; uint8_t zt[16] = {0};
+        for (i = 0; i < 11; ++i) {
+            const ClassInfo &ci = CLS[i];
+            c_expected(ci, EARLY_KEY, ci.tweaked ? EARLY_TW : zt, 0, EARLY_IN, e1);
+            VH_COUNT("classes_used_before_main", 1);
+            if (!g_early.ok[i] || memcmp(g_early.out[i], e1, ci.bb)) {
+                char key_[200], d[200]; snprintf(key_, sizeof(key_), "C19:%s:used-from-a-file-scope-constructor:differs-from-c-library", ci.name);
+                snprintf(d, sizeof(d), "{\"class\":\"%s\",\"when\":\"constructor of a file-scope object of the program (before main)\"}", ci.name); viol(key_, 0, d);
+            }
+            {
+                int cp;
+                switch (i) {
+                case 0: cp = copy_probe<Skinny128_128>(EARLY_KEY, ci.klen, EARLY_IN, ci.bb, e1); break; case 1: cp = copy_probe<Skinny128_256>(EARLY_KEY, ci.klen, EARLY_IN, ci.bb, e1); break;
+                case 2: cp = copy_probe<Skinny128_384>(EARLY_KEY, ci.klen, EARLY_IN, ci.bb, e1); break; case 5: cp = copy_probe<Skinny64_64>(EARLY_KEY, ci.klen, EARLY_IN, ci.bb, e1); break;
+                case 6: cp = copy_probe<Skinny64_128>(EARLY_KEY, ci.klen, EARLY_IN, ci.bb, e1); break; case 7: cp = copy_probe<Skinny64_192>(EARLY_KEY, ci.klen, EARLY_IN, ci.bb, e1); break;
+                default: cp = -2; break;        /* tweakable classes and Mantis8: expected value above includes a tweak; skipped */
+                }
+                if (cp >= 0) VH_COUNT("classes_copy_probed", 1);
+                if (cp > 0 && (cp & 2)) { char key_[200], d[200]; snprintf(key_, sizeof(key_), "C19:%s:original-damaged-by-the-death-of-a-copy", ci.name); snprintf(d, sizeof(d), "{\"class\":\"%s\",\"probe\":%d}", ci.name, cp); viol(key_, 0, d); }
+            }
+        }
+    }
     vh_run(one_case);
     vh_finish();
     return 0;
